@@ -8,7 +8,9 @@ RULE = ("structured transactions (0..40 inputs/outputs with scripts from the C02
         "script lengths 0/1/75/76/252/253/254/255/256/1000/65535/65536 (thorough: 65537, 100000) in inputs and outputs, every compact size also in its "
         "non-minimal 3/5/9-byte forms, trailing bytes, every field-boundary truncation and random truncations, byte flips, "
         "counts and lengths replaced by extremes up to 2^64-1, output totals on both sides of 2^64, the same field lists "
-        "through the construction API (tx.build), TxIn/TxOut::from_hex on the pieces, TxIn::from_outpoint_bytes, and the "
+        "through the construction API (tx.build), and again with set_locking_script / set_satoshis annotations (empty, P2PKH, "
+        "data-carrier, 252/253/1000/70000-byte locking scripts; before add_input or via get_input/set_input) on a random subset "
+        "of the inputs (tx.build_ext: bytes, txid, size, per-input to_bytes and get_unlocking_script_size), TxIn/TxOut::from_hex on the pieces, TxIn::from_outpoint_bytes, and the "
         "compact-size writers/readers/helper on both sides of 252/253, 65535/65536, 2^32-1/2^32 and at 2^64-1; "
         "non-trivial = the implementation model accepts the input; distinct by (op, arguments)")
 TRUSTED = ["hand-written Gallina models coq/Model/Tx.v, coq/Model/VarInt.v (and coq/Model/Script.v of C02) of "
@@ -172,6 +174,38 @@ def expand_py(d):
     return out
 
 
+def lock_script(rng):
+    """a locking script a signer would attach: empty, P2PKH, data carrier, long, or from the grammar"""
+    r = rng.random()
+    if r < 0.15:
+        return ""
+    if r < 0.5:
+        return "76a914+l:%d:20+88ac" % rng.randrange(1, 2 ** 31)
+    if r < 0.6:
+        return "006a" + c02.push(rng, rng.choice([1, 20, 75, 76, 255, 256])).hex()
+    if r < 0.75:
+        n = rng.choice([252, 253, 300, 1000, 70000]) if r < 0.63 else rng.choice([252, 253, 300, 1000])
+        return "r:51:%d" % n
+    if r < 0.85:
+        n = rng.choice([253, 300, 600])
+        return "4d" + le(n, 2) + "+l:%d:%d" % (rng.randrange(1, 1000), n)
+    return good_script(rng).hex()
+
+
+def ext_build_args(ver, ins, outs, lt, rng, p_annot=0.6):
+    """tx.build_ext argument list: a random subset of the inputs carries set_locking_script / set_satoshis"""
+    a = [str(ver), str(lt), str(len(ins)), str(len(outs))]
+    for i in ins:
+        ann = rng.random() < p_annot
+        lock = lock_script(rng) if ann and rng.random() < 0.85 else "-"
+        sat = str(r64(rng, rng.random() < 0.7)) if ann and rng.random() < 0.7 else "-"
+        a += [i.id, str(i.vout), i.script, "-" if (i.seq == 0xffffffff and rng.random() < 0.7) else str(i.seq),
+              lock, sat, rng.choice("ab")]
+    for o in outs:
+        a += [str(o.value), o.script]
+    return a
+
+
 FIXED = [
     # tests/transaction.rs
     "01000000029e8d016a7b0dc49a325922d05da1f916d1e4d4f0cb840c9727f3d22ce8d1363f000000008c493046022100e9318720bee5425378b4763b0427158b1051eec8b08442ce3fbfbf7b30202a44022100d4172239ebd701dae2fbaaccd9f038e7ca166707333427e3fb2a2865b19a7f27014104510c67f46d2cbb29476d1f0b794be4cb549ea59ab9cc1e731969a7bf5be95f7ad5e7f904e5ccf50a9dc1714df00fbeb794aa27aaff33260c1032d931a75c56f2ffffffffa3195e7a1ab665473ff717814f6881485dc8759bebe97e31c301ffe7933a656f020000008b48304502201c282f35f3e02a1f32d2089265ad4b561f07ea3c288169dedcf2f785e6065efa022100e8db18aadacb382eed13ee04708f00ba0a9c40e3b21cf91da8859d0f7d99e0c50141042b409e1ebbb43875be5edde9c452c82c01e3903d38fa4fd89f3887a52cb8aea9dc8aec7e2c9d5b3609c03eb16259a2537135a1bf0f9c5fbbcbdbaf83ba402442ffffffff02206b1000000000001976a91420bb5c3bfaef0231dc05190e7f1c8e22e098991e88acf0ca0100000000001976a9149e3e2d23973a04ec1b02be97c30ab9f2f27c3b2c88ac00000000",
@@ -244,6 +278,9 @@ def generate(rng, tier):
             # the same fields through the construction API (ids given in display order)
             bi = [In(expand_py(i.id)[::-1].hex(), i.vout, i.script, i.seq) for i in ins]
             A("tx.build", *flat_build_args(ver, bi, outs, lt, rng))
+            if rng.random() < 0.6 and bi:
+                # ... and with signer annotations on a random subset of the inputs
+                A("tx.build_ext", *ext_build_args(ver, bi, outs, lt, rng))
         if rng.random() < 0.12 and ins:
             i = rng.choice(ins); iw = in_wire(i)
             A("txin.parse", iw)
@@ -375,6 +412,29 @@ def generate(rng, tier):
         A("tx.build", 1, 0, 0, n, *sum([["%d" % k, "51"] for k in range(n)], []))
         A("tx.build", 1, 0, n, 0, *sum([["l:%d:32" % (k + 1), "%d" % k, "", "-"] for k in range(n)], []))
 
+    # ---------------------------------------------------------------- construction API with the extended-format annotations
+    # (set_locking_script / set_satoshis before add_input, or through get_input / set_input afterwards)
+    for mode in "ab":
+        for lock in ["-", "", "51", "76a914+r:11:20+88ac", "r:51:252", "r:51:253", "4d0001+l:5:256", "6351675268"]:
+            for sat in ["-", "0", "18446744073709551615"]:
+                if lock == "-" and sat == "-" and mode == "a":
+                    continue
+                for scr in (["", "483045+l:9:70", "r:51:250"] if sat == "-" else ["0151"]):
+                    A("tx.build_ext", 1, 0, 1, 1, "l:3:32", 1, scr, "-", lock, sat, mode, 1000, "76a914+r:22:20+88ac")
+    A("tx.build_ext", 2, 0, 3, 1, "l:3:32", 0, "", 0, "76a914+r:11:20+88ac", 5000, "b", "l:4:32", 1, "0151", "-", "-", "-", "b",
+      "l:5:32", 2, "", 4294967294, "76a914+r:33:20+88ac", 7000, "a", 11000, "76a914+r:22:20+88ac")
+    A("tx.build_ext", 1, 0, 1, 1, "l:3:32", 1, "0151", "-", "r:51:70000", 1, "b", 1000, "51")                # very long locking script
+    A("tx.build_ext", 1, 0, 1, 1, "l:3:32", 1, "0151", "-", "r:51:70000", "-", "a", 1000, "51")
+    A("tx.build_ext", 1, 0, 1, 0, "r:00:32", 4294967295, "03aabbcc", "-", "51", 5000000000, "b")        # annotated coinbase input
+    A("tx.build_ext", 1, 0, 1, 1, "l:3:32", 0, "51", 0, "0501", "-", "b", 1, "51")                     # locking script from C02's class
+    A("tx.build_ext", 1, 0, 1, 1, "l:3:32", 0, "51", 0, "63", "-", "b", 1, "51")                       # not a script
+    for _ in range(400 if thorough else 30):
+        nin = rng.randrange(1, 6)
+        ins = [In(bytes(rng.randrange(256) for _ in range(32)).hex() if rng.random() < 0.3 else "l:%d:32" % rng.randrange(1, 2 ** 31),
+                  r32(rng), good_script(rng).hex(), r32(rng)) for _ in range(nin)]
+        outs = [Out(r64(rng, True), good_script(rng).hex()) for _ in range(rng.randrange(0, 3))]
+        A("tx.build_ext", *ext_build_args(r32(rng), ins, outs, r32(rng), rng, 0.8))
+
     # ---------------------------------------------------------------- outpoints
     for d in ["", "00", "r:00:35", "r:00:36", "r:00:37", "l:5:36", "l:6:36", "r:ff:36", "l:7:35", "l:7:37", "l:7:72"]:
         A("txin.outpoint", d)
@@ -427,6 +487,8 @@ def search_cases(rng, broken):
         s = "r:51:%d" % n if n else ""
         out.append(("tx.parse", [tx_wire(1, [In("l:3:32", 1, s, 2)], [Out(3, s)], 4)]))
         out.append(("tx.build", ["1", "4", "1", "1", "l:3:32", "1", s, "2", "3", s]))
+        for mode in "ab":
+            out.append(("tx.build_ext", ["1", "4", "1", "1", "l:3:32", "1", s, "2", "76a914+r:11:20+88ac", "5", mode, "3", s]))
     for v in EDGE32:
         out.append(("tx.parse", [tx_wire(v, [In("l:3:32", v, "51", v)], [Out(v * 4294967297, "51")], v)]))
         out.append(("tx.build", [str(v), str(v), "1", "1", "l:3:32", str(v), "51", str(v), str(v * 4294967297), "51"]))
